@@ -26,7 +26,7 @@ run_demo() {
     cp "$OUT/demo.rs" examples/demo_lv.rs
     # data files the demo may need
     for f in "$OUT"/*; do case "$f" in *patch.diff|*demo.rs|*meta.json) ;; *) cp -r "$f" examples/ 2>/dev/null;; esac; done
-    timeout 600 cargo run --offline --example demo_lv >/tmp/demo-$ID-$M.log 2>&1; rc=$?
+    timeout 900 cargo run --offline ${DEMO_PROFILE:-} --example demo_lv >/tmp/demo-$ID-$M.log 2>&1; rc=$?
     rm -f examples/demo_lv.rs
   elif [ -f "$OUT/demo.sh" ]; then
     (cd "$WT" && cargo build --offline >/dev/null 2>&1 && timeout 900 bash "$OUT/demo.sh" >/tmp/demo-$ID-$M.log 2>&1); rc=$?
@@ -49,7 +49,7 @@ try: m=json.load(open(src))
 except Exception as e: m={"meta_parse_error":str(e)}
 m["property"]=pid
 m["confirmed_by_main_session"]={"scratch_worktree":"/tmp/wt*-"+pid,"existing_tests_with_patch":t.strip(),"demo_exit_with_patch":int(a),"demo_exit_without_patch":int(b),
-  "commands":["git apply patch.diff","cargo test --workspace --offline","cargo run --offline --example demo_lv (demo.rs copied to examples/)","git checkout -- .","cargo run --offline --example demo_lv"]}
+  "commands":["git apply patch.diff","cargo test --workspace --offline","cargo run --offline [--release when the change is release-only] --example demo_lv (demo.rs copied to examples/)","git checkout -- .","cargo run --offline --example demo_lv"]}
 json.dump(m,open(dst,"w"),indent=1)
 PY
   echo "CONFIRM $ID $M: OK kept in $D"
